@@ -385,3 +385,108 @@ theorem unmarshalDetails_encodeDetails (c : Cert) (h : V2OK c) (rd : List UInt8)
     exact hfin (some ib) this (by rw [hib]; rfl)
 
 end Nebula.Lemmas.CertV2RT
+
+namespace Nebula.Lemmas.CertV2RT
+open Nebula.Net Nebula.Cert Nebula.Der Nebula.Cert.V2 Nebula.Lemmas.Der Nebula.Lemmas.DerRT Nebula.Lemmas.DerInt
+  Nebula.Lemmas.CertV1RT
+
+/-! ### the envelope -/
+
+theorem encodeDetails_form (c : Cert) (rd : List UInt8) (he : encodeDetails c = some rd) :
+    ∃ body, rd = encTLV tagCertDetails body := by
+  unfold encodeDetails at he
+  dsimp only at he
+  split at he
+  · cases he
+  · simp only [Option.some.injEq] at he
+    exact ⟨_, he.symm⟩
+
+theorem readOptionalByte_present (t d b : UInt8) (rest : List UInt8) (ht : ¬ t &&& 0x1f = 0x1f) :
+    readOptionalByte t d (encTLV t [b] ++ rest) = some (b, rest) := by
+  unfold readOptionalByte
+  rw [readOptional_present t [b] rest ht (by simp)]
+
+theorem readOptionalByte_absent (t d : UInt8) (s : List UInt8) (h : peekTag t s = false) :
+    readOptionalByte t d s = some (d, s) := by
+  unfold readOptionalByte
+  rw [readOptional_absent t s h]
+
+theorem detailsOf_restore (c : Cert) :
+    ({ detailsOf c with curve := c.curve, publicKey := c.publicKey, signature := c.signature } : Cert) = c := by
+  cases c; rfl
+
+/-- **v2 round trip, standard form.** -/
+theorem unmarshal_marshal (c : Cert) (h : V2OK c) (rd : List UInt8) (he : encodeDetails c = some rd)
+    (hsz : (marshal rd c.curve (some c.publicKey) c.signature).length ≤ 65536) :
+    unmarshal (marshal rd c.curve (some c.publicKey) c.signature) [] 0 = .ok (c, rd) := by
+  obtain ⟨-, -, -, hpk⟩ := validateV2_facts c c h.valid
+  obtain ⟨body, hrd⟩ := encodeDetails_form c rd he
+  have hcur := h.curve
+  have hsig := h.sig_ne
+  unfold marshal at hsz ⊢
+  have hin := encTLV_length_ge tagSequence
+    (rd ++ (if c.curve ≠ curve25519 then encTLV tagCertCurve [UInt8.ofNat c.curve] else []) ++
+      encTLV tagCertPublicKey c.publicKey ++ encTLV tagCertSignature c.signature)
+  simp only [List.append_assoc] at hin hsz ⊢
+  simp only [List.length_append] at hin
+  have hpkl := encTLV_length_ge tagCertPublicKey c.publicKey
+  have hsgl := encTLV_length_ge tagCertSignature c.signature
+  have hrdl : rd.length ≤ 65536 := by omega
+  have hdet := unmarshalDetails_encodeDetails c h rd he hrdl
+  unfold unmarshal
+  obtain ⟨inner, hinner⟩ : ∃ inner, inner = rd ++ ((if c.curve ≠ curve25519 then encTLV tagCertCurve [UInt8.ofNat c.curve] else []) ++
+      (encTLV tagCertPublicKey c.publicKey ++ encTLV tagCertSignature c.signature)) := ⟨_, rfl⟩
+  rw [← hinner] at hsz hin ⊢
+  have hz : ((encTLV tagSequence inner).length == 0 ||
+      decide ((encTLV tagSequence inner).length > Gen.cert_MaxCertificateSize)) = false := by
+    simp only [Bool.or_eq_false_iff, beq_eq_false_iff_ne, decide_eq_false_iff_not]
+    refine ⟨by omega, ?_⟩
+    show ¬ _ > 65536
+    omega
+  rw [hz]
+  simp only [Bool.false_eq_true, if_false]
+  have hil : inner.length + 6 < 2 ^ 32 := by
+    have := encTLV_length_ge tagSequence inner; omega
+  rw [← List.append_nil (encTLV tagSequence inner), readASN1_encTLV _ _ _ tag_ok.2.2.2.2.2.2.2.2.2.2.2.2.1 hil]
+  simp only []
+  rw [hinner]
+  have hne : (rd ++ ((if c.curve ≠ curve25519 then encTLV tagCertCurve [UInt8.ofNat c.curve] else []) ++
+      (encTLV tagCertPublicKey c.publicKey ++ encTLV tagCertSignature c.signature))).isEmpty = false := by
+    rw [hrd]; exact encTLV_isEmpty _ _ _
+  rw [hne]
+  simp only [Bool.false_eq_true, if_false]
+  have hbl : body.length + 6 < 2 ^ 32 := by
+    have := encTLV_length_ge tagCertDetails body; rw [← hrd] at this; omega
+  rw [hrd, readASN1Element_encTLV _ _ _ tag_ok.1 hbl, ← hrd]
+  simp only []
+  have hrne : rd.isEmpty = false := by rw [hrd]; simp [encTLV]
+  rw [hrne]
+  simp only [Bool.false_eq_true, if_false]
+  -- curve
+  have hcurve : readOptionalByte tagCertCurve (UInt8.ofNat 0)
+      ((if c.curve ≠ curve25519 then encTLV tagCertCurve [UInt8.ofNat c.curve] else []) ++
+        (encTLV tagCertPublicKey c.publicKey ++ encTLV tagCertSignature c.signature)) =
+      some (UInt8.ofNat c.curve, encTLV tagCertPublicKey c.publicKey ++ encTLV tagCertSignature c.signature) := by
+    by_cases cc : c.curve = curve25519
+    · simp only [cc, ne_eq, not_true_eq_false, if_false, List.nil_append]
+      rw [readOptionalByte_absent _ _ _ (by rw [peek_tlv]; decide)]
+      rfl
+    · simp only [cc, ne_eq, not_false_eq_true, if_true]
+      exact readOptionalByte_present _ _ _ _ tag_ok.2.1
+  rw [hcurve]
+  simp only [List.length_nil, Nat.lt_irrefl, gt_iff_lt, if_false]
+  rw [readOptional_present _ _ _ tag_ok.2.2.1 (by omega)]
+  simp only [Option.getD_some]
+  have hpk0 : (c.publicKey.length == 0) = false := by
+    simp only [beq_eq_false_iff_ne, ne_eq, List.length_eq_zero_iff]; exact hpk
+  rw [hpk0]
+  simp only [Bool.false_eq_true, if_false]
+  rw [← List.append_nil (encTLV tagCertSignature c.signature), readASN1_encTLV _ _ _ tag_ok.2.2.2.1 (by omega)]
+  simp only []
+  have hs0 : c.signature.isEmpty = false := by cases hx : c.signature <;> simp_all
+  rw [hs0]
+  simp only [Bool.false_eq_true, if_false, hdet]
+  have hto : (UInt8.ofNat c.curve).toNat = c.curve := by simp only [UInt8.toNat_ofNat']; omega
+  rw [hto, detailsOf_restore, h.valid]
+
+end Nebula.Lemmas.CertV2RT
